@@ -687,6 +687,7 @@ func (ex *Exec) specCall(sc *specCtx, e *ast.CallExpr) (Val, bool) {
 		}
 		sc.depth++
 		bv := fmt.Sprintf("%s_%d", id.Name, sc.depth)
+		ex.boundNames = append(ex.boundNames, bv)
 		inner := sc.bind(id.Name, Val{Const(bv, SInt), typInt})
 		var body *T
 		var pats []*T
@@ -717,6 +718,7 @@ func (ex *Exec) specCall(sc *specCtx, e *ast.CallExpr) (Val, bool) {
 			body = p.T
 		}
 		sc.depth--
+		ex.boundNames = ex.boundNames[:len(ex.boundNames)-1]
 		if fname == "forall" {
 			if len(pats) > 0 {
 				return Val{ForallMulti([]string{bv}, body, pats), typBool}, true
@@ -744,6 +746,20 @@ func (ex *Exec) specCall(sc *specCtx, e *ast.CallExpr) (Val, bool) {
 		}
 		a := ex.specArgs(sc, e.Args[1:])
 		return Val{ex.fmtIdTerm(format, a), typInt}, true
+	case "as":
+		// as(x, "T"): x viewed as a value of type T (a pointer stored in an interface is the pointer itself)
+		if len(e.Args) == 2 {
+			if bl, ok := e.Args[1].(*ast.BasicLit); ok && bl.Kind == token.STRING {
+				tn, _ := strconv.Unquote(bl.Value)
+				t := ex.lookupType(sc.pkgOr(ex), tn)
+				x, _ := ex.specEval(sc, e.Args[0])
+				if t != nil {
+					return Val{x.T, t}, true
+				}
+			}
+		}
+		ex.specErr(sc, "as(x, \"Type\") needs a known type")
+		return Val{I(0), typInt}, false
 	case "errIs":
 		a := ex.specArgs(sc, e.Args)
 		return Val{And(Ne(a[0].T, I(0)), ex.errIs(a[0].T, a[1].T)), typBool}, true
